@@ -342,6 +342,9 @@ EXTRA = [b'x=1 -- c\ny=2\n', b'x=1 // c\ny=2\n', b'if (a) b=1 -- c\nc=2\n', b'if
          b'x=1 --[[c]] y=2\n', b'-- t\n-- a\n-- third\nx=1\n', b'x = a - - b\n', b'x = a - -1\n', b'x = 1 .. 2\n',
          b'x = a .. ...\n', b'x = a .. .5\n', b't[ [[k]] ] = 1\n', b'x = 1 .. a\n', b'x = a and 1 or 2\n',
          b'x = 0x1f e = 1\n', b'x = 1 e1 = 2\n', b'f = 1 x = f\n', b'x = a.b.c d = 1\n', b'x = a ... \n' ]
+# long comments that hold closing brackets of another level (they end only at their own closer)
+EXTRA += [b'x=1\n--[==[ a\ny=t[u[1]] z=5\n--]==]\nw=2\n', b'x=1 --[=[ was t[k[1]] +v --]=]\ny=2\n', b'--[[ s=[=[raw]=] w=3\n--]]\nx=1\n',
+          b'x=[==[ a ]] b ]=] c ]==] y=2\n', b'x=1 --[===[ ]] ]=] ]==] ]===] y=2\n', b'x=[[a]=]b]] --[[c]=]d]] y=1\n']
 # header comments (the first two are kept verbatim) whose text ends like something else, directly followed by code
 for _h in (b'-- by [[zep]]', b'// see t[tabs[2]]', b'-- a]]', b'-- a]=]', b'--[[t]]', b'--[=[t]=]', b'-- x --', b'// y //', b'-- q\\',
            b'-- "open', b"-- it's", b'--[[a\nb]]', b'--'):
